@@ -176,7 +176,8 @@ def allocStash (s : Stash) : M Nat := fun σ => .ok σ.stashes.length { σ with 
 def setStash (i : Nat) (s : Stash) : M Unit := modifySt fun σ => { σ with stashes := setNth σ.stashes i s }
 
 /-- global.go:82 newObject -/
-def newObject : M Nat := allocObj { cls := "Object", proto := some objProto, props := [] }
+def plainObject : Obj := { cls := "Object", proto := some objProto, props := [] }
+def newObject : M Nat := allocObj plainObject
 
 /-- object.go:118 writeProperty: a new name is appended to propertyOrder, an old one keeps its place -/
 def writeProperty (props : List (String × Pty)) (name : String) (p : Pty) : List (String × Pty) :=
@@ -606,10 +607,12 @@ def fnParams : FE → List String
 
 /-- global.go:191 newNodeFunction over type_function.go:134 newNodeFunctionObject
     (`caller` is an accessor there; here an inert non-enumerable data property) -/
+def fnObject (node : FE) (stash : Nat) : Obj :=
+  { cls := "Function", proto := some fnProto, val := .nodeFn node stash,
+    props := [("name", p000 (.str (fnName node))), ("length", p000 (.num (fnParams node).length)), ("caller", p000 .null)] }
+
 def newNodeFunction (node : FE) (stash : Nat) : M Nat := do
-  let o ← allocObj { cls := "Function", proto := some fnProto, val := .nodeFn node stash,
-                     props := [("name", p000 (.str (fnName node))), ("length", p000 (.num (fnParams node).length)),
-                               ("caller", p000 .null)] }
+  let o ← allocObj (fnObject node stash)
   let prototype ← newObject
   let _ ← defineProperty o "prototype" (p100 (.ref prototype)) false
   let _ ← defineProperty prototype "constructor" (p101 (.ref o)) false
